@@ -1,6 +1,8 @@
 import GoSQLXModel.Model.ErrChain
 import GoSQLXModel.Gen.ErrorSites
 import GoSQLXModel.Spec.ErrorSites
+import GoSQLXModel.Gen.ParserInstance
+import GoSQLXModel.Proofs.Depth
 /-!
 # C13 — Every failure is a structured, classifiable, reproducible error
 
@@ -17,6 +19,13 @@ import GoSQLXModel.Spec.ErrorSites
   hand-listed unreachable sites).
 * `gen_families`: tokenizer sites carry E1xxx codes, parser sites E2xxx codes, all documented.
 * `gen_gosqlx_wraps`: the convenience wrappers only add `%w` layers.
+* "The same input always produces the same code": the one piece of parser state that survives a failed parse on a reused
+  parser and decides an error code is the recursion-depth counter (E2007 when it passes 100). `Model/Depth.lean`: call
+  trees whose counting calls lower the counter with `defer`; `depth_restored_after_any_parse` /
+  `depth_restored_after_any_history`: after any call tree — failing anywhere, at any nesting — and after any sequence
+  of them the counter is what it was; `gen_depth_sites_deferred`: on today's source every `depth++` is immediately
+  followed by the deferred `depth--`; `inline_decrement_leaks`: the inline shape leaks, and 34 such statements pass the
+  limit. The harness reads the real counter after every run of failures (hook `VerifDepth`).
 -/
 namespace GoSQLXModel.Props.C13
 open GoSQLXModel GoSQLXModel.ErrChain
@@ -73,5 +82,22 @@ example : (Gen.errorSites.filter fun s => s.2.2.1 == "builder").length > 40 := b
 example : unstructuredOffenders [("pkg/sql/parser", "Parser.parseSelectStatement", "bare", "", true, "invalid %s value %q")]
     = [("pkg/sql/parser", "Parser.parseSelectStatement", "bare", "", true, "invalid %s value %q")] := by decide
 theorem bare_error_counterexample : errAs (applyLayers [.w "parsing failed"] (.bare "invalid LIMIT value")) = none := by decide
+
+
+/-- every `p.depth++` of pkg/sql/parser is immediately followed by `defer func() { p.depth-- }()` (regenerated) -/
+theorem gen_depth_sites_deferred : Gen.parserDepthIncs.all (·.2) = true ∧ Gen.parserDepthIncs.length ≥ 3 := by decide +kernel
+
+/-- with `defer` at every counting call, one parse — succeeding or failing anywhere — leaves the counter as it was -/
+theorem depth_restored_after_any_parse (c : Depth.Call) (d : Nat) (h : c.allDeferred = true) : (Depth.runCall c d).1 = d :=
+  Depth.runCall_restores c d h
+
+/-- … and so does any history of parses on one parser -/
+theorem depth_restored_after_any_history (cs : List Depth.Call) (d : Nat) (h : ∀ c ∈ cs, c.allDeferred = true) :
+    cs.foldl (fun d c => (Depth.runCall c d).1) d = d := Depth.runs_restore cs d h
+
+/-- the inline decrement skipped by the failure path leaks one level per counting call on the way out -/
+theorem inline_decrement_leaks : Depth.runCall Depth.leaky 0 = (3, false) ∧
+    (List.replicate 34 Depth.leaky).foldl (fun d c => (Depth.runCall c d).1) 0 = 102 :=
+  ⟨Depth.inline_decrement_leaks, Depth.leaks_accumulate⟩
 
 end GoSQLXModel.Props.C13
